@@ -107,6 +107,23 @@ def run(chk, replay=None):
         events.append(e)
         meta.append((clause, cls, other))
 
+    for n in names:
+        # repeating a marshalling call on one object with equal inputs yields equal bytes
+        r = refs[n]
+        try:
+            obj = r.build()
+            b1 = bytes(obj.build_cdb(**dict(r.dec)))
+            b2 = bytes(obj.build_cdb(**dict(r.dec)))
+            b3 = bytes(obj.build_cdb(**dict(r.dec)))
+            ok = b1 == b2 == b3 == r.enc
+        except Exception as ex:
+            ok, b1, b2 = False, repr(ex).encode(), b""
+        ev.case(("rebuild", n))
+        if not ok:
+            note({"ev": "EncodeDict", "cls": n, "d": {k: num(v) for k, v in r.dec.items()}, "out": list(b2)}, "Deterministic", n, "")
+            chk.violation({"clause": "Deterministic", "cls": n, "other": "", "field": "",
+                           "detail": {"first": list(b1), "second": list(b2), "isolated": list(r.enc)},
+                           "what": "cmd.build_cdb(**fields) repeated on one object"}, dedup=("Deterministic", n))
     for n in names:                      # the references themselves must be what the spec says
         r = refs[n]
         note(r.snapshot_event(r.build(), "Reference"), "Reference", n, "")
